@@ -146,7 +146,18 @@ def walk(root, where, vs, stats, seen, depth=0):
         vs.append(("node-unreadable", f"{where}: {type(e).__name__}"))
         return
     exp = None
-    if op in ARITH and cl is not None and cr is not None:
+    if op in ("max compared with", "min compared with") and cl is not None and cr is not None:
+        # the hour-by-hour larger / smaller of the two recorded operands, as physical quantities (an operand without
+        # value counts as 0); only judged when both operands cover the same hours (D15 otherwise) and have one dimension
+        pick = max if op.startswith("max") else min
+        (kl, dl, pl), (kr, dr, pr) = cl, cr
+        if kl == "h" and kr == "e":
+            exp = ("h", dl, {k: pick(v, 0) for k, v in pl.items()})
+        elif kl == "h" and kr == "h" and dl == dr and set(pl) == set(pr):
+            exp = ("h", dl, {k: pick(pl[k], pr[k]) for k in pl})
+        if exp is not None:
+            stats["arith"] += 1
+    elif op in ARITH and cl is not None and cr is not None:
         exp = expected(op, cl, cr)
         stats["arith"] += 1
         if op == "/" and cr[0] == "e":
